@@ -5,9 +5,14 @@
     rogw/tranp/syntax/node/definition/operator.py        node shapes: Factor, NotCompare, the nine flat BinaryOperator
                                                           kinds (one per ladder level), TernaryOperator; expression.py:6 Group
     rogw/tranp/implements/cpp/transpiler/py2cpp.py
-      1379-1383  on_factor / on_not_compare               unary_operator.j2, operator '!' for `not`
+      1379-1388  on_factor / on_not_compare               unary_operator.j2, operator '!' for `not`; guards: a factor under the same
+                                                          sign and a regrouped operand of `not` are wrapped in `( )`
+      1447-1472  is_regrouped_operand                     operand is a (non-Group) BinaryOperator whose loosest known C++ precedence
+                                                          is below the precedence of the operator applied to it
+      1578-1608  CppOperatorPrecedences                   translated: Generated.CppTemplates.cppPrecBinary / cppPrecUnary
       1385-1410  on_or_compare … on_term                  all → proc_binary_operation
-      1442-1455  proc_binary_operation_expression         left fold over the chain, one template instance per operator,
+      1474-1488  proc_binary_operation_expression         left fold over the chain, one template instance per operator, every operand
+                                                          guarded by is_regrouped_operand (the first one against operators[0]),
                                                           `primary_raw = right_raw` after each step (type of the LEFT operand of the
                                                           next operator is the type of the previous RIGHT element, not of the fold)
       1457-1458  on_ternary_operator, 1518-1519 on_group
@@ -226,19 +231,60 @@ def renderBinary (op : BOp) (dict : Bool) (lty rty : Ty) (left right : List RTok
     render binaryOperator { strs := [(sOperator, op.tok), (sLeftTy, lty.name), (sRightTy, rty.name)] }
       [(sLeft, left), (sOperator, [.t (.sym op.tok)]), (sRight, right)]
 
+/-- `CppOperatorPrecedences.precedence_of` (py2cpp.py:1599-1608): `binary.get(operator, unary)` over the translated table -/
+def precOf (operator : Str) : Nat := (lookup operator cppPrecBinary).getD cppPrecUnary
+
+/-- precedences of the operators of a chain that the table knows (py2cpp.py:1467-1468) -/
+def restPrecs : Rest → List Nat
+  | .nil => []
+  | .cons op _ _ _ rest => match lookup op.tok cppPrecBinary with
+    | some k => k :: restPrecs rest
+    | none => restPrecs rest
+
+def minList : List Nat → Nat
+  | [] => 0
+  | [x] => x
+  | x :: xs => Nat.min x (minList xs)
+
+/-- `Py2Cpp.is_regrouped_operand` (py2cpp.py:1447-1472) -/
+def isRegrouped (operand : Node) (operator : Str) : Bool :=
+  match operand with
+  | .chain _ _ _ rest =>
+    let ps := restPrecs rest
+    if ps.isEmpty then false else decide (minList ps < precOf operator)
+  | _ => false
+
+/-- `f'({value})'` -/
+def wrapParen (r : List RTok) : List RTok := .t (.sym ['(']) :: (r ++ [.t (.sym [')'])])
+
+def guardIf (b : Bool) (r : List RTok) : List RTok := if b then wrapParen r else r
+
+/-- py2cpp.py:1381: the operand is a Factor with the same sign `+`/`-` -/
+def sameSign (op : UOp) : Node → Bool
+  | .factor op' _ => (op == .pos || op == .neg) && op == op'
+  | _ => false
+
+/-- operator token of the first operator of a chain (`operators[0]`) -/
+def Rest.firstTok : Rest → Option Str
+  | .nil => none
+  | .cons op _ _ _ _ => some op.tok
+
 mutual
 /-- the text `Py2Cpp` produces for an operator node, as tokens and blanks -/
 def emitRaw : Node → List RTok
   | .atom id text => [.t (.atom id text)]
   | .group e => render group {} [(sExpression, emitRaw e)]
-  | .factor op e => renderUnary op.tok (emitRaw e)
-  | .notCompare e => renderUnary ['!'] (emitRaw e)
-  | .chain _ fty first rest => emitRest (emitRaw first) fty rest
+  | .factor op e => renderUnary op.tok (guardIf (sameSign op e) (emitRaw e))
+  | .notCompare e => renderUnary ['!'] (guardIf (isRegrouped e ['!']) (emitRaw e))
+  | .chain _ fty first rest =>
+    -- py2cpp.py:1476: the first operand is guarded against `operators[0]` (a chain always has one; none = not guarded)
+    emitRest (guardIf (match rest.firstTok with | some o => isRegrouped first o | none => false) (emitRaw first)) fty rest
   | .ternary p c s => render ternaryOperator {} [(sPrimary, emitRaw p), (sCondition, emitRaw c), (sSecondary, emitRaw s)]
-/-- py2cpp.py:1442-1455: `primary`/`primary_raw` threaded through the chain -/
+/-- py2cpp.py:1474-1488: `primary`/`primary_raw` threaded through the chain, each right operand guarded -/
 def emitRest (primary : List RTok) (pty : Ty) : Rest → List RTok
   | .nil => primary
-  | .cons op dict ty e rest => emitRest (renderBinary op dict pty ty primary (emitRaw e)) ty rest
+  | .cons op dict ty e rest =>
+    emitRest (renderBinary op dict pty ty primary (guardIf (isRegrouped e op.tok) (emitRaw e))) ty rest
 end
 
 def CTok.text : CTok → Str
@@ -372,8 +418,25 @@ def pyRestL (acc : Prec.Expr) : Rest → Prec.Expr
   | .cons op _ _ e rest => pyRestL (.bin op.code acc (pyExprL e)) rest
 end
 
+def wrapE (b : Bool) (e : Prec.Expr) : Prec.Expr := if b then .paren e else e
+
 mutual
-/-- the operator core `group_iff` talks about: no ternary, no `in`/`not.in`, no `<>`, no float `%` (rendered as a call) -/
+/-- the tree the emitted text spells: `pyExprL` plus a `paren` wherever the emitter's guards put parentheses -/
+def cppExprL : Node → Prec.Expr
+  | .atom id _ => .atom id
+  | .group e => .paren (cppExprL e)
+  | .factor op e => .pre op.code (wrapE (sameSign op e) (cppExprL e))
+  | .notCompare e => .pre bangCode (wrapE (isRegrouped e ['!']) (cppExprL e))
+  | .chain _ _ first rest =>
+    cppRestL (wrapE (match rest.firstTok with | some o => isRegrouped first o | none => false) (cppExprL first)) rest
+  | .ternary _ _ _ => .atom 0
+def cppRestL (acc : Prec.Expr) : Rest → Prec.Expr
+  | .nil => acc
+  | .cons op _ _ e rest => cppRestL (.bin op.code acc (wrapE (isRegrouped e op.tok) (cppExprL e))) rest
+end
+
+mutual
+/-- the operator core the grouping theorems talk about: no ternary, no `in`/`not.in`, no `<>`, no float `%` (rendered as a call) -/
 def core : Node → Bool
   | .atom _ _ => true
   | .group e => core e
